@@ -47,6 +47,15 @@ func (p *VarPool) GetName(baseName string) string {
 	}
 }
 
+// Reserve marks name as taken without consuming a suffix. Registering the
+// identifiers a package already declares must be idempotent: the generated
+// names may not depend on how often, or in which run, a name was seen.
+func (p *VarPool) Reserve(name string) {
+	if p.vars[name] == 0 {
+		p.vars[name] = 1
+	}
+}
+
 func (p *VarPool) Get(t types.Type) string {
 	name := p.getBaseName(t)
 
